@@ -200,9 +200,15 @@ func checkC13(c *Check) {
 		ruleXXHConstants(c, p)
 		ruleXXHThreshold(c, p, "R13.6")
 		ruleContentHashDiscipline(c, p, "R13.7")
+		c.RuleDoc["R13.8"] = "the header check byte is bits 8..15 of the hash of the whole descriptor (everything after the magic)"
+		c.only(func(k string) bool { return strings.HasPrefix(k, "descriptorChecksum#") || strings.HasPrefix(k, "FrameDescriptor.Write#hash-range") }, func() { ruleDescriptorConstants(c, p, "R13.8") })
+		c.RuleDoc["R13.9"] = "a buffer whose bytes are still to be hashed by the ordered path is not released to the pool (the compression worker releases its source only after the final receive)"
+		c.only(func(k string) bool { return strings.HasPrefix(k, "Writer.write.worker#") }, func() { ruleReleaseAfterUse(c, p, "R13.9") })
 		c.RuleDoc["R13.7"] = "the frame's streaming hash state is fed in stream order only and reset at frame start only"
 		c.RuleDoc["R13.6"] = "short-input threshold is exactly 16 bytes"
 		ruleXXHBuffer(c, p)
+		c.RuleDoc["R13.10"] = "the stages of XXH32 consume their input exactly: stride loops continue only with a whole unit and stop only without one (bounds prover); no index of the hash code can panic"
+		ruleXXHConsumption(c, p, "R13.10")
 	}
 	checkPartition(c, "R13.4", "internal/xxh32", []string{"ChecksumZero", "update"}, []string{"gc"})
 }
